@@ -6,7 +6,7 @@
   index, holes are not members), isLiteralTrue, isLiteralFalse; stats.go: calcStats;
   report.go: Report's verdict).
   `Spec`: the leaves of a result tree as (structured path, leaf) pairs, navigation `Tree.subtree`,
-  which files are test files (`Spec.Under`), the outcome a leaf must subtree.
+  which files are test files (`Spec.Under`), the outcome a leaf must be given.
 
   Strings are `List Char` (they reduce in the kernel); text is rendered outside (Gen.lean).
   Core-only.
@@ -426,6 +426,16 @@ def runTests (w : World) (path : Name) : Run :=
     | .ok runs => .reported runs (calcStats runs)
 
 end Impl
+
+/-- `f` is a test file of the run `arrai test <path>` -/
+def Spec.IsTestFile (w : World) (path : Name) (f : TestFile) : Prop :=
+  ∃ n, w.lstat (Impl.targetPath w path) = some n ∧ Spec.Under n (Impl.targetPath w path) f
+
+/-- the outcomes the leaves of the given files must get, file by file, leaf by leaf -/
+def Spec.leafOutcomes (f : TestFile) : List Outcome :=
+  match f.content with
+  | some t => (Spec.leaves t).map (fun pl => Spec.outcome pl.2)
+  | none => []
 
 /-! ## The specified run (independent of Impl: from `Spec.leaves`, `Spec.render`, `Spec.outcome`) -/
 namespace Spec
